@@ -62,12 +62,31 @@ class Scorer(ClassifierMixin, BaseEstimator):
         self.fitted_ = True
         return self
 
-    def predict_proba(self, X):
+    def _scores(self, X):
         idx = [int(v) for v in np.asarray(X)[:, 0]]
         s = np.array([self.scores[i] for i in idx], dtype=object)
         if not stubs.has_sym(s):
             s = s.astype(float)
+        return s
+
+    def predict_proba(self, X):
+        s = self._scores(X)
         return np.stack([1 - s, s], axis=1)
+
+
+class MultiScorer(Scorer):
+    """offers several prediction methods with DIFFERENT outputs: the scores live in decision_function, predict_proba returns the reversed
+    ranking and predict hard labels - the configured predict_method must be used consistently at fit and at predict time"""
+
+    def decision_function(self, X):
+        return self._scores(X)
+
+    def predict_proba(self, X):
+        s = self._scores(X)
+        return np.stack([s, 1 - s], axis=1)
+
+    def predict(self, X):
+        return np.zeros(len(np.asarray(X)))
 
 
 def configs(tier, rnd):
@@ -105,10 +124,14 @@ def _make_to(estimator, cons, obj, grid_size, flip, via_set_params):
     (what clone / GridSearchCV / Pipeline do): fit must depend on the parameters as they are at fit time"""
     from fairlearn.postprocessing import ThresholdOptimizer
 
+    pm = "predict_proba"
+    if flip:  # half of the configurations: an estimator with several methods, scores taken from decision_function
+        estimator = MultiScorer(estimator.scores)
+        pm = "decision_function"
     if not via_set_params:
-        return ThresholdOptimizer(estimator=estimator, constraints=cons, objective=obj, grid_size=grid_size, flip=flip, prefit=True, predict_method="predict_proba")
+        return ThresholdOptimizer(estimator=estimator, constraints=cons, objective=obj, grid_size=grid_size, flip=flip, prefit=True, predict_method=pm)
     to = ThresholdOptimizer(estimator=estimator, prefit=True)
-    to.set_params(constraints=cons, objective=obj, grid_size=grid_size, flip=flip, predict_method="predict_proba")
+    to.set_params(constraints=cons, objective=obj, grid_size=grid_size, flip=flip, predict_method=pm)
     return to
 
 
